@@ -23,23 +23,25 @@ type gor struct {
 	wake chan struct{}
 	done bool
 	what string
+	idle bool // yielded since the last completed operation of any goroutine
 }
 
 type coopState struct {
-	on    bool
-	gs    []*gor
-	cur   *gor
-	stall int         // consecutive yields without a completed operation
-	ops   int         // completed channel/sync operations and goroutine exits
-	fwd   interface{} // panic value raised on another goroutine, to be re-raised on main
-	dead  bool        // the path is over: parked goroutines unwind
-	wg    map[*value]int
-	mu    map[*value]int // -1 write-locked, n>0 readers
+	on      bool
+	gs      []*gor
+	cur     *gor
+	stall   int         // consecutive yields without a completed operation
+	ops     int         // completed channel/sync operations and goroutine exits
+	fwd     interface{} // panic value raised on another goroutine, to be re-raised on main
+	dead    bool        // the path is over: parked goroutines unwind
+	wg      map[*value]int
+	mu      map[*value]int // -1 write-locked, n>0 readers
+	deviate int            // remaining deviations from round robin (schedule exploration)
 }
 
-func (ex *Exec) enableCoop() {
+func (ex *Exec) enableCoop(deviate int) {
 	main := &gor{id: 0, wake: make(chan struct{})}
-	ex.co = &coopState{on: true, gs: []*gor{main}, cur: main, wg: map[*value]int{}, mu: map[*value]int{}}
+	ex.co = &coopState{on: true, gs: []*gor{main}, cur: main, wg: map[*value]int{}, mu: map[*value]int{}, deviate: deviate}
 }
 
 func (ex *Exec) coop() bool { return ex.co != nil && ex.co.on }
@@ -47,6 +49,19 @@ func (ex *Exec) coop() bool { return ex.co != nil && ex.co.on }
 func (ex *Exec) progress() {
 	ex.co.ops++
 	ex.co.stall = 0
+	for _, g := range ex.co.gs {
+		g.idle = false
+	}
+}
+
+// allIdle: every live goroutine has tried and failed to proceed since the last completed operation.
+func (co *coopState) allIdle() bool {
+	for _, g := range co.gs {
+		if !g.done && !g.idle {
+			return false
+		}
+	}
+	return true
 }
 
 func (co *coopState) live() int {
@@ -68,6 +83,31 @@ func (co *coopState) next(after *gor) *gor {
 		}
 	}
 	return co.gs[0]
+}
+
+// nextExplore: as next, but while the deviation budget lasts the successor is a free choice among the live
+// goroutines (choice 0 = the round-robin successor, which costs nothing). Every schedule that differs from round
+// robin in at most `deviate` hand-overs is explored.
+func (ex *Exec) nextExplore(after *gor) *gor {
+	co := ex.co
+	rr := co.next(after)
+	if co.deviate <= 0 || ex.inHook {
+		return rr
+	}
+	cands := []*gor{rr}
+	for _, g := range co.gs {
+		if !g.done && g != rr && g != after {
+			cands = append(cands, g)
+		}
+	}
+	if len(cands) == 1 {
+		return rr
+	}
+	k := ex.choice(len(cands))
+	if k != 0 {
+		co.deviate--
+	}
+	return cands[k]
 }
 
 // switchTo hands the baton to g; if from is non-nil the caller parks until it is woken again.
@@ -120,7 +160,7 @@ func (ex *Exec) spawnCoop(i *interpreter, fn value, args []value, pos token.Pos)
 				return
 			}
 			ex.progress()
-			ex.switchTo(co.next(g), nil)
+			ex.switchTo(ex.nextExplore(g), nil)
 		}()
 		call(i, nil, pos, fn, args)
 	}()
@@ -132,12 +172,22 @@ func (ex *Exec) yield(what string) {
 	co := ex.co
 	g := co.cur
 	g.what = what
+	g.idle = true
 	co.stall++
-	if co.stall > co.live() {
+	if co.allIdle() {
 		// everybody had a turn and nothing moved
 		if g.id != 0 {
 			ex.switchTo(co.gs[0], g) // only main runs the hook or reports the deadlock
 			return
+		}
+		if DebugPC {
+			msg := ""
+			for _, x := range co.gs {
+				if !x.done {
+					msg += " g" + itoa(x.id) + ":" + x.what
+				}
+			}
+			println("QUIESCENT:" + msg)
 		}
 		if ex.idleHook != nil && !ex.inHook {
 			before := co.ops
@@ -145,7 +195,6 @@ func (ex *Exec) yield(what string) {
 			call(ex.interp, nil, 0, ex.idleHook, nil)
 			ex.inHook = false
 			if co.ops != before {
-				co.stall = 0
 				return
 			}
 		}
@@ -160,7 +209,7 @@ func (ex *Exec) yield(what string) {
 		}
 		ex.abort(AbortBlocked, "all goroutines blocked (%s)", msg)
 	}
-	n := co.next(g)
+	n := ex.nextExplore(g)
 	if n == g {
 		// sole live goroutine: go round again (stall grows until the hook runs)
 		return
